@@ -145,13 +145,24 @@ class C08(TraceCheck):
             cfg = {"backend": rng.choice(W.DICT_BACKENDS), "bitlength": rng.choice([8, 16]), "resolution": 2,
                    "max_nesting": rng.choice([1, 2]), "p_try": 0.0, "fxp": False}
             plan = BlockGen(rng, cfg).plan()
-            return {"plan": plan, "faults": {"abort_seam": 1 + int(rng.random() ** 1.5 * 150)}, "block": True}
+            return {"plan": plan, "faults": {"abort_seam": 1 + int(rng.random() ** 1.5 * 150)}, "block": True,
+                    "target": rng.choice(["exit", "exit", "enter", None]), "pick": rng.randrange(1 << 20)}
         return TraceCheck.gen(self, rng, i, tier)
 
     def run(self, case):
         if not case.get("block"):
             return TraceCheck.run(self, case)
-        tr = T.TraceRun(case["plan"], case["faults"], props=()).run()
+        faults = dict(case["faults"])
+        if case.get("target"):
+            # place the fault inside the chosen library function: a fault-free pass locates the seam calls
+            # made from it, the pick selects one (deterministic in plan and code)
+            def hook(t):
+                t.w.rec.trace_frames = (case["target"],)
+            p0 = T.TraceRun(case["plan"], props=(), world_hook=hook).run()
+            hits = p0.w.rec.frame_hits.get(case["target"], [])
+            if hits:
+                faults["abort_seam"] = hits[case["pick"] % len(hits)]
+        tr = T.TraceRun(case["plan"], faults, props=()).run()
         viol = []
         rt = tr.w.runtime
         fired = bool(tr.probes.get("abort_seam_fired"))
@@ -2923,6 +2934,7 @@ E.register(C13())
 
 # ---------------------------------------------------------------------------------------
 from . import qapsim as Q
+import importlib
 
 
 class QapRun:
@@ -2953,7 +2965,9 @@ class QapRun:
             g = {"PrivVal": rt.PrivVal, "PubVal": rt.PubVal, "LinComb": rt.LinComb, "guarded": rt.guarded,
                  "PrivValBool": w.boolean.PrivValBool, "PubValBool": w.boolean.PubValBool,
                  "LinCombBool": w.boolean.LinCombBool, "if_then_else": w.branching.if_then_else,
-                 "PrivValFxp": lambda v: rt.PrivVal(int(v)), "subqap": b.subqap, "exportcomm": b.exportcomm,
+                 "PrivValFxp": lambda v: rt.PrivVal(int(v)), "PubValFxp": lambda v: rt.PubVal(int(v)),
+                 "Array": importlib.import_module("pysnark.array").Array, "ConstVal": rt.ConstVal,
+                 "subqap": b.subqap, "exportcomm": b.exportcomm,
                  "importcomm": b.importcomm, "__inputs__": self.inputs,
                  "__step__": lambda *a: None, "__enter__": lambda *a: None, "__leave__": lambda *a: None,
                  "__caught__": lambda k, e, m=(): self.caught.append((k, type(e).__name__, str(e)[:80])),
@@ -3184,6 +3198,16 @@ class C12(TraceCheck):
     def gen(self, rng, i, tier):
         cfg = {"backend": "qaptools", "bitlength": rng.choice([4, 8]), "resolution": 2, "value_bias": "tiny",
                "max_nesting": 0, "p_try": 1.0, "p_bool_cond": 1.0, "fxp": False}
+        if i % 4 == 3:
+            # the general plan space (operators, assertions, selection, arrays, guarded regions) on this backend
+            gcfg = dict(cfg, bitlength=rng.choice([3, 4, 8]), max_nesting=rng.choice([0, 1, 2]),
+                        p_bool_cond=0.5, fxp=False)
+            plan = P.generate(rng, gcfg, dict(FULL_MIX, set_ie=0, fxp=0))
+            for inp in plan["inputs"]:
+                if inp["t"] == "F":
+                    inp["t"], inp["v"] = "I", int(inp["v"])
+            return {"plan": plan, "faults": {"bufcap": rng.choice([0, "line", 64, 8192, None])}, "second_run": False,
+                    "alt_inputs": [], "seed": rng.randrange(1 << 30), "general": True}
         nf = rng.randrange(0, 4)
         subqaps = []
         for k in range(nf):
@@ -3201,9 +3225,19 @@ class C12(TraceCheck):
             if subqaps and u < 0.4:
                 body.append({"s": "subqap_call", "fn": rng.randrange(nf),
                              "args": [{"ref": rng.randrange(0, 16), "t": "I"} for _ in range(3)], "try": True})
-            elif u < 0.6:
+            elif u < 0.5:
                 body.append({"s": "let", "e": {"op": rng.choice(["*", "+", "-"]), "a": {"ref": rng.randrange(16), "t": "I"},
                                                 "b": {"ref": rng.randrange(16), "t": "I"}, "t": "I"}, "try": True})
+            elif u < 0.6:
+                # scaled / negated / shifted single wires (linear combinations with one term or a constant part)
+                k = rng.random()
+                if k < 0.4:
+                    e = {"op": "*", "a": {"ref": rng.randrange(16), "t": "I"}, "b": {"k": rng.choice([2, 3, -1, 0]), "t": "I"}, "t": "I"}
+                elif k < 0.7:
+                    e = {"un": "neg", "a": {"ref": rng.randrange(16), "t": "I"}, "t": "I"}
+                else:
+                    e = {"op": "+", "a": {"ref": rng.randrange(16), "t": "I"}, "b": {"k": rng.choice([1, 5]), "t": "I"}, "t": "I"}
+                body.append({"s": "let", "e": e, "try": True})
             elif u < 0.75:
                 body.append({"s": "val", "a": {"ref": rng.randrange(16), "t": "I"}, "try": True})
             elif u < 0.82:
